@@ -68,6 +68,9 @@ def gen_case(rng, mode):
     if kind in ('bd', 'single', 'gram'):
         p = rng.randint(1, 4)
         phi = [[rand_fun(rng, d, mode, indicator=True) for _ in range(rng.randint(1, 3))] for _ in range(p)]
+        if rng.random() < 0.15:         # a mode made of overlapping indicator functions only (integer-valued tables)
+            c0 = rng.randrange(d)
+            phi[rng.randrange(p)] = [tdt.IndicatorFunction(c0, -2 + k_, 1 + k_) for k_ in range(rng.randint(2, 3))]
         tabs = [np.array([[float(phi[i][k](x[:, j])) for j in range(m)] for k in range(len(phi[i]))]) for i in range(p)]
         xarg = xi if ityped else x
         if kind == 'bd':
@@ -195,7 +198,17 @@ def hocur_case(seed, dup=False):
         b = dense(ref.cores)
         if not clear_ranks(b.reshape([len(l) for l in phi] + [m])):
             return None, dict(desc, skipped='ill-conditioned')
-        t = tdt.hocur(x, phi, ranks=m, repeats=rng.randint(1, 2), multiplier=10, progress=False)
+        rk = m
+        if rng.random() < 0.4:          # per-bond list of maximum ranks; the caller's list must survive the call
+            rk = [1] + [m + rng.randint(0, 2) for _ in range(p)] + [1]
+        rk_keep = list(rk) if isinstance(rk, list) else rk
+        mult = rng.choice([1, 2, 10, 10])
+        if any(float(f(xf[:, j])) == 0.0 for l in phi for f in l for j in range(m)):
+            mult = 10           # sparse tables (indicator functions, zeros at integer points): few candidate columns lose rank (cf. F26)
+        desc['multiplier'] = mult
+        t = tdt.hocur(x, phi, ranks=rk, repeats=rng.randint(1, 2), multiplier=mult, progress=False)
+        if isinstance(rk, list) and rk != rk_keep:
+            return 'hocur modified the list handed in as ranks: %s -> %s' % (rk_keep, rk), desc
     except Exception as e:
         return 'raised %r' % (e,), desc
     a = dense(t.cores)
